@@ -51,6 +51,7 @@ func init() {
 	c06Sel = eng.NewKind(c, "select", judgeSel)
 	c06Obs = eng.NewKind(c, "observed", judgeObs)
 	c06Once = eng.NewKind(c, "once", judgeOnce)
+	c06Compact = eng.NewKind(c, "compact", judgeCompact)
 }
 
 var selVals []cval
@@ -72,6 +73,7 @@ func selData() map[string]interface{} {
 		"h0": func() (int, error) { return 0, nil }, "hf0": func() (float64, error) { return 0, nil }, "hs": func() (string, error) { return "", nil },
 		"hnil": func() (interface{}, error) { return nil, nil }, "hfalse": func() (bool, error) { return false, nil }, "hnan": func() (float64, error) { return math.NaN(), nil },
 		"h32": func() (int32, error) { return 0, nil },
+		"hnp": func() (*int, error) { return nil, nil }, "hnd": func() (*decimal.Big, error) { return nil, nil }, "hni": func() (interface{}, error) { return (*decimal.Big)(nil), nil },
 	}
 }
 
@@ -351,6 +353,42 @@ func judgeObs(c ObsCase) *eng.Fail {
 	return nil
 }
 
+var c06Compact *eng.Kind[ObsCase]
+
+// judgeCompact: E holds two spellings of one formula (with and without blanks), separated by NUL.
+func judgeCompact(c ObsCase) *eng.Fail {
+	parts := strings.SplitN(c.E, "\x00", 2)
+	if len(parts) != 2 {
+		return eng.F("harness/case", "bad case")
+	}
+	var res [2]string
+	for i, src := range parts {
+		p := safeParse([]byte("[" + src + "]"))
+		if p.panicked || p.err != nil {
+			if i == 0 {
+				return eng.F("C06/parse", "%s: %v %s", src, p.err, p.panicMsg)
+			}
+			return eng.F("C06/compact-spelling", "%q parses, the same formula written %q does not: %v %s", parts[0], src, p.err, p.panicMsg)
+		}
+		r := formula.NewRunner()
+		r.SetThis(selData())
+		o := safeResolve(r, bg, p.src.Expression)
+		switch {
+		case o.panicked:
+			res[i] = "panic " + o.panicMsg
+		case o.err != nil:
+			res[i] = "error"
+		default:
+			res[i] = canonImpl(o.val)
+		}
+	}
+	if res[0] != res[1] {
+		return eng.F("C06/compact-spelling", "%q = %s but %q = %s", parts[0], res[0], parts[1], res[1])
+	}
+	outcome("compact " + res[0])
+	return nil
+}
+
 // OnceCase: an operand with a side effect (an assignment that reads its own variable) under a selection
 // operator: whichever operand is handed back, it is the value of ONE evaluation.
 type OnceCase struct {
@@ -475,7 +513,7 @@ func runC06(w *eng.W) {
 		"sqrt(0)", "ln(1)", "log(1)", "exp(-1e30)", "len('')", "len('a')", "find('abc', 'a')", "find('abc', 'z')", "trim('  ')", "left('abc', 0)", "right('abc', 0)", "mid('abc', 1, 1)", "lower('')", "replace('a', 'a', '')",
 		"toString(0)", "toString('')", "toString(null)", "join([], ',')", "join([''], ',')", "startWith('', '')", "contains('a', 'b')", "includes([], 'a')", "regexp('', '^$')", "mapToArr([], 'k')",
 		"typeof null", "typeof 0", "null == null", "1 === 2", "0 == ''", "~-1", "~0", "5 & 2", "0 | 0", "1 ^ 1", "year(tm) - 2020", "weekDay(tm)", "millSecond(zt) * 0", "i0 + 0", "i0 * 1", "i5 - 5", "dzero + 0", "dnegzero * 1",
-		"h0()", "hf0()", "hs()", "hnil()", "hfalse()", "hnan()", "h32()", "map.k - 1", "map.missing", "st.A - 1", "nilp", "nild", "this.nild", "this.missing", "$u", "($u = 0)", "($u = '')", "($u = null)", "(0, '')", "('', 0)"}
+		"h0()", "hf0()", "hs()", "hnil()", "hnp()", "hnd()", "hni()", "hnp() ?? hnd()", "hfalse()", "hnan()", "h32()", "map.k - 1", "map.missing", "st.A - 1", "nilp", "nild", "this.nild", "this.missing", "$u", "($u = 0)", "($u = '')", "($u = null)", "(0, '')", "('', 0)"}
 	for _, e := range computed {
 		if !w.Take() {
 			continue
@@ -487,6 +525,28 @@ func runC06(w *eng.W) {
 		c := ObsCase{E: e}
 		w.Sample("observed", c)
 		c06Obs.Do(w, c)
+	}
+	// the same selections written without blanks, with leading-dot literals next to ? : ?? && ||
+	for ci := 0; ci < selNC; ci++ {
+		if !w.Take() {
+			continue
+		}
+		c := selVals[ci].Expr
+		for _, pair := range [][2]string{
+			{c + " ? .5 : 3", c + "?.5:3"}, {c + " ? 3 : .5", c + "?3:.5"}, {c + " ?? .5", c + "??.5"}, {c + " && .5", c + "&&.5"}, {c + " || .5", c + "||.5"},
+			{"!" + c + " ? .5 : .25", "!" + c + "?.5:.25"}, {c + " ? 'T' : 'F'", c + "?'T':'F'"}, {c + " ? (.5) : [.5]", c + "?(.5):[.5]"},
+		} {
+			if !selVals[ci].NegOK && strings.HasPrefix(pair[0], "!") {
+				continue
+			}
+			w.State(1)
+			w.Trans(2)
+			w.Trace(1)
+			w.Note("leg:compact", 1)
+			cc := ObsCase{E: pair[0] + "\x00" + pair[1]}
+			w.Sample("compact", cc)
+			c06Compact.Do(w, cc)
+		}
 	}
 	// operands with a side effect: evaluated once, handed back unchanged
 	for _, op := range []string{"&&", "||", "??", "?:"} {
